@@ -23,7 +23,11 @@ def close(a, b, rtol, atol=1e-13):
 
 # ------------------------------------------------------------------ (a) static methods on bins
 def gen_bin(g):
-    kind = g.choice(['real', 'empty', 'single', 'identical', 'unpol', 'mu0', 'degenerate', 'random'], p=[0.35, 0.08, 0.08, 0.08, 0.08, 0.08, 0.12, 0.13])
+    kind = g.choice(['real', 'empty', 'single', 'identical', 'unpol', 'mu0', 'degenerate', 'random', 'axis'], p=[0.30, 0.08, 0.08, 0.08, 0.08, 0.08, 0.12, 0.10, 0.08])
+    if kind == 'axis':            # polarization exactly along a Stokes axis: U = 0 with Q of either sign (PA = 0 or ±90 deg), Q = 0 with U of either sign (±45 deg)
+        n = float(g.integers(2, 10 ** 5)); mu = g.uniform(0.05, 0.7); x = n * g.uniform(0.01, 1.)
+        Q, U = [(x, 0.), (-x, 0.), (0., x), (0., -x), (-x, -0.)][int(g.integers(0, 5))]
+        return n, Q, U, mu, n
     if kind == 'real':
         n = float(g.integers(2, 10 ** 6)); w = g.uniform(0.2, 1.)
         I = n * w; W2 = n * w * w * g.uniform(1., 1.3); mu = g.uniform(0.05, 0.7); pd = g.uniform(0, 1.2); a = g.uniform(-math.pi, math.pi)
@@ -71,6 +75,15 @@ def statement_bin(I, Q, U, mu, W2, vals):
             bad.append('non-finite output')
         if v['PD'] < 0 or abs(v['PA']) > 90 + 1e-9 or not (0 <= v['MDP'] <= 1) or min(v['PD_ERR'], v['PA_ERR'], v['dI'], v['dQ'], v['dU'], v['dQN'], v['dUN']) < 0:
             bad.append('range')
+        # the published point estimates (Kislat 2015 eqs. 21, 22 with the normalised parameters): PD = hypot(Q, U)/I, PA = atan2(U, Q)/2
+        if (Q != 0 or U != 0) and math.isfinite(v['PD']) and v['PD'] > 0:
+            pd = math.hypot(Q, U) / I
+            pa = 0.5 * math.degrees(math.atan2(U, Q))
+            if abs(v['PD'] - pd) > 1e-9 * max(1., pd):
+                bad.append('PD = %r, published formula %r' % (v['PD'], pd))
+            d = abs(v['PA'] - pa) % 180.
+            if v['PD_ERR'] > 0 and min(d, 180. - d) > 1e-9:          # the angle is only filled for the bins passing the code's masks (the errors are non-zero there)
+                bad.append('PA = %r deg, published formula %r deg' % (v['PA'], pa))
     if I == 0:
         if not (v['PD'] == 0 and v['PA'] == 0 and v['MDP'] == 1 and v['QN'] == 0 and v['UN'] == 0):
             bad.append('empty bin defaults')
@@ -311,5 +324,6 @@ def replay(body):
         except BaseException as e:
             out('implementation raises %s: %s on %s' % (type(e).__name__, e, b))
             return 1
-    out(body['what'])
-    return 1
+    import sys
+    import common
+    return common.replay_rerun(sys.modules[__name__], body)
